@@ -125,7 +125,8 @@ func iterative(args []string) {
 		// directed schedules first (orderings of Iterative.tla that plain timing rarely produces): the search
 		// goroutine is held right after it published depth d (before it decides whether to go on) until a
 		// Halt requested after the consumer saw depth d has returned - Halt must return depth >= d
-		for i := 0; i < 6 && i < *n; i++ {
+		stuck := false // a run whose Halt never returned leaves goroutines behind: it is the last one
+		for i := 0; i < 6 && i < *n && !stuck; i++ {
 			d := 2 + i%3
 			limit := 0
 			if i >= 3 {
@@ -176,8 +177,10 @@ func iterative(args []string) {
 			go func() { wg.Wait(); close(done) }()
 			select {
 			case <-done:
-			case <-time.After(10 * time.Second):
-				ctl.Mark("harness.stuck")
+			case <-time.After(30 * time.Second):
+				// every gate the search could wait for is open: a Halt that has not returned by now never will
+				ctl.Mark("halt.stuck")
+				stuck = true
 			}
 			for dd := 1; dd <= 12; dd++ {
 				stub.Release(1, dd)
@@ -187,7 +190,7 @@ func iterative(args []string) {
 			ctl.Close()
 			w.Emit(out.M{"op": "iterhalt", "limit": limit, "mate": 0, "events": ctl.Events()})
 		}
-		for i := 0; i < *n; i++ {
+		for i := 0; i < *n && !stuck; i++ {
 			ctl := sched.New(r.Int63())
 			ctl.Delay, ctl.MaxUs = []int{0, 30, 60}[r.Intn(3)], 400
 			verifhook.Install(ctl.Handle)
@@ -248,8 +251,10 @@ func iterative(args []string) {
 			go func() { wg.Wait(); close(done) }()
 			select {
 			case <-done:
-			case <-time.After(5 * time.Second):
-				ctl.Mark("harness.stuck")
+			case <-time.After(30 * time.Second):
+				// depth 1 has been released: a Halt that has not returned by now never will
+				ctl.Mark("halt.stuck")
+				stuck = true
 			}
 			ctl.WaitCount("iter.exit", 1, 2*time.Second)
 			verifhook.Install(nil)
